@@ -64,7 +64,24 @@ def comp_eq(specs_a, specs_b):
     a, b = build(specs_a), build(specs_b)
     return [a == b, b == a, a != b]
 
-IMPL = {"comp.eq": comp_eq, "track.run": machines.run_track, "comp.run": machines.run_comp, "comp.two": machines.run_comps, "comp.misc": comp_misc, "track.eq": track_eq, "comp.setitem": comp_setitem}
+def run_track_late(spec, ops):
+    """a track built with one instrument (or none) that gets another one ATTACHED AFTERWARDS (`track.instrument = ...`, as
+    the MIDI reader and writer do): the range test follows the instrument the track carries now"""
+    first, later = spec.split(">")
+    from mingus.containers import Track
+    t = Track(machines.INSTR[first]())
+    t.instrument = machines.INSTR[later]()
+    out = []
+    for op in ops:
+        try:
+            r = machines.track_step(t, op)
+            out.append([r, machines.track_out(t)])
+        except Exception as e:
+            out.append([machines.canon(e), machines.track_out(t)])
+    out.append(machines.track_out(t))
+    return out
+
+IMPL = {"track.run_late": run_track_late, "comp.eq": comp_eq, "track.run": machines.run_track, "comp.run": machines.run_comp, "comp.two": machines.run_comps, "comp.misc": comp_misc, "track.eq": track_eq, "comp.setitem": comp_setitem}
 NO_MODEL = {"comp.misc", "track.eq", "comp.two", "comp.eq", "comp.setitem"}
 def has_model(c):
     return c["fn"] not in NO_MODEL
@@ -96,6 +113,14 @@ def cases(tier, rng):
         yield Case("track.run", [instr, ops], "instrument/" + instr, kind=("instrument", instr))
         yield Case("track.run", [instr, [["add", HIGH, 4], ["add", E3, 4], ["add", E3, 4], ["add", E3, 4], ["add", E3, 4], ["add", HIGH, 4],
                                          ["add", LOW, 1], ["add", E3, 2]]], "instrument/boundary/" + instr, kind=("run",))
+    # the instrument attached (or taken away) after the track was built
+    for first in ("none", "Piano", "Guitar"):
+        for later in machines.INSTR:
+            if later == first:
+                continue
+            ops = [["add", C4, 4], ["add", None, 4], ["add", LOW, 4], ["add", HIGH, 4], ["add", E3, 4], ["add", SEVEN, 4],
+                   ["add", None, 2], ["add", CHORD, 4], ["add", None, 1]]
+            yield Case("track.run_late", [first + ">" + later, ops], "instrument/attached-later", model=False, kind=("instrument", later))
     # plain lists of notes, unsorted, with the note outside the range first, in the middle and last
     for instr in machines.INSTR:
         raws = [[["obj", "G", 4], ["obj", "C", 4], ["obj", "E", 4]], [["obj", "C", 4], ["obj", "C", 9], ["obj", "E", 4]],
@@ -189,6 +214,11 @@ def cases(tier, rng):
     sc = [["add_track", "none"], ["add_track", "none"], ["track_add", 1, C4, 2], ["track_add", 1, C4, 4], ["track_add", 1, C4, 8],
           ["select", [1, 0]], ["add_note", C4], ["select", [0, 1]], ["add_note", E3]]
     yield Case("comp.run", [sc], "composition/one-track-refuses", model=False, kind=("comp",))
+    # selections the caller wrote by hand: counted from the end, the same track twice, both together
+    for sel in ([-1], [-2], [0, 0], [1, 1, 0], [-1, 0], [-3, 2], [2, -1]):
+        sc = [["add_track", "none"], ["add_track", "none"], ["add_track", "none"], ["select", sel], ["add_note", C4], ["add_note", CHORD],
+              ["select", [1]], ["add_note", E3], ["select", sel], ["add_note", E3]]
+        yield Case("comp.run", [sc], "composition/select-negative-repeated", model=False, kind=("comp",))
     yield Case("comp.misc", [[]], "composition/misc", model=False, kind=("misc",))
     for n in (1, 2, 3, 4):
         for idx in range(-n, n):
